@@ -21,8 +21,10 @@ class Path(object):
         self.events = events
         self.end = end
 
-    def conds(self):
-        return [(e[1], e[2]) for e in self.events if e[0] == 'cond']
+    def conds(self, asserts=True):
+        """branch outcomes of the path; with asserts=False the conditions that only `assert` statements put there are left out
+        (an assertion states a belief about the values, it does not decide between outcomes)"""
+        return [(e[1], e[2]) for e in self.events if e[0] == 'cond' and (asserts or len(e) < 4 or e[3] != 'assert')]
 
     def stmts(self):
         return [e[1] for e in self.events if e[0] == 'stmt']
@@ -117,8 +119,8 @@ def _walk(stmts, prefix, res, limit, k=None):
     elif isinstance(st, ast.With):
         _walk(list(st.body), prefix + [('stmt', st)], res, limit, [rest] + k)
     elif isinstance(st, ast.Assert):
-        _walk(rest, prefix + [('cond', st.test, True)], res, limit, k)
-        res.append(Path(prefix + [('cond', st.test, False)], ('raise', st)))
+        _walk(rest, prefix + [e + ('assert',) for e in _outcome(st.test, True)], res, limit, k)
+        res.append(Path(prefix + [e + ('assert',) for e in _outcome(st.test, False)], ('raise', st)))
     elif isinstance(st, ast.Expr) and isinstance(st.value, ast.Call) and isinstance(st.value.func, ast.Name) and \
             st.value.func.id in ('elf_assert', 'dwarf_assert') and st.value.args:
         # modelled as: if not cond: raise
@@ -128,12 +130,12 @@ def _walk(stmts, prefix, res, limit, k=None):
         _walk(rest, prefix + [('stmt', st)], res, limit, k)
 
 
-def returns_with_conds(func):
+def returns_with_conds(func, asserts=True):
     """[(conds, return_expr)] for every returning path."""
     out = []
     for p in func_paths(func):
         if p.end[0] == 'return':
-            out.append((p.conds(), p.end[1], p))
+            out.append((p.conds(asserts), p.end[1], p))
     return out
 
 
